@@ -435,10 +435,17 @@ def deep_sentence(draw: t.Any, depth_range: t.Tuple[int, int] = (13, 60)) -> t.D
 def very_deep_sentence(draw: t.Any, depths: t.Sequence[int] = (64, 99, 100, 101, 127, 128, 129, 200, 255, 256, 300)) -> t.Dict[str, t.Any]:
     """Nesting far beyond what ordinary sentences reach (well inside what the default interpreter stack allows: the
     parser needs about two frames per level); the operator pattern is short and read cyclically, some levels get a
-    sibling item before or after the nested filter."""
+    sibling item before or after the nested filter.  The case is the *recipe* (depth, pattern, innermost item) - the
+    sentence and its tree are built by ``expand_deep`` inside the check, so cases stay small for transport and replay."""
     depth = draw(st.sampled_from(list(depths)))
     ops = draw(st.lists(st.sampled_from(["&", "|", "!", "&<", "|>"]), min_size=1, max_size=6))
     text, tree, stats = draw(item_sentence())
+    return {"deep": {"depth": depth, "ops": ops, "item": [text, tree, stats]}}
+
+
+def expand_deep(spec: t.Dict[str, t.Any]) -> t.Dict[str, t.Any]:
+    depth, ops = spec["depth"], spec["ops"]
+    text, tree, stats = spec["item"]
     text = "(" + text + ")"
     for i in range(depth):
         op = ops[i % len(ops)]
